@@ -6,7 +6,7 @@ from synq import canon, walk
 
 PROPERTY = "C15"
 TITLE = "Only const values are used as types, sizes, discriminants and comptime args"
-NEEDS = ("syn",)
+NEEDS = ("syn", "facts")
 TECHNIQUE = "static analysis: ask-first pairing (const query guards every evaluation), abstract evaluation of the const classifier per expression kind, classifier/evaluator sibling cross-check"
 EXPLANATION = (
     "Engine B: (a) every evaluation of a const position (const_data for array sizes, enum discriminants and comptime "
@@ -284,9 +284,65 @@ def r15c(ctx, run):
         raise LookupError("const_data matches in const_ty: %d" % n)
 
 
+def r15d(ctx, run):
+    """must-pass-through on MIR: in finish_body every path from the entry to the normal return passes the constness test of the global's
+    body (get_const), except through the test's own conditions (`global` false, builtin bodies) and the `?` error returns"""
+    import facts as FA
+    from facts import short, show_chain
+    F = ctx.facts
+    fn = F.fn("hir_ty::globals::GlobalInferenceCtx::finish_body")
+    gcs = [c for c in fn.calls() if short(c.callee) == "get_const"]
+    if len(gcs) != 1:
+        raise LookupError("get_const call in finish_body: %d" % len(gcs))
+    gc = gcs[0]
+    residual = {c.bb for c in fn.calls() if short(c.callee) == "from_residual"}
+    rets = [i for i, b in enumerate(fn.blocks) if b["t"]["k"] == "return"]
+    conds = fn.conditions_of(gc.bb, limit=12)
+    gidx = [i for i, (d, ch, sides) in enumerate(conds) if isinstance(ch, dict) and ch.get("kind") == "param" and ch.get("name") == "global"]
+    if not gidx:
+        raise LookupError("the constness test of finish_body is not guarded by its `global` parameter")
+    dglobal = conds[gidx[0]][0]
+    gates = [(d, sides) for d, ch, sides in conds if d == dglobal or fn.dominates(dglobal, d)]
+    banned = set()
+    for d, sides in gates:
+        t = fn.blocks[d]["t"]
+        vals = list(t.get("vals", []))
+        labels = vals + ["otherwise"] * (len(t["t"]) - len(vals))
+        for lab, sx in zip(labels, t["t"]):
+            if lab not in sides:
+                banned.add((d, sx))      # leaving the test through its own condition is legitimate: not a bypass
+    # search: entry -> return without get_const, without `?` error paths, without the test's own bypass edges
+    seen, todo = {0}, [0]
+    avoid = {gc.bb} | residual
+    hit = None
+    parent = {}
+    while todo:
+        u = todo.pop()
+        for v in fn.succ[u]:
+            if v in seen or v in avoid or (u, v) in banned or fn.blocks[v].get("cleanup"):
+                continue
+            seen.add(v)
+            parent[v] = u
+            if v in rets:
+                hit = v
+            todo.append(v)
+    lines = []
+    if hit is not None:
+        x = hit
+        while x in parent:
+            t = fn.blocks[x]["t"]
+            lines.append(t.get("ln"))
+            x = parent[x]
+    run.check(hit is None, gc.site(), "finish_body: every normal return passes the constness test of a global's body (gates: %d)" % len(gates),
+              "GlobalInferenceCtx::finish_body", "global-const-bypass", gc.file, gc.ln,
+              "finish_body can return normally without testing get_const(body) for a global (a path through lines %s avoids the test at line %d): a global whose "
+              "initialiser is not constant is accepted without GlobalNotConst and reaches code generation" % (sorted({l for l in lines if l})[:8], gc.ln))
+
+
 def rules(ctx):
     return [
         Rule("R15.a", "every const position asks get_const first; non-const is reported and not evaluated", 7, r15a),
         Rule("R15.b", "get_const's classification per expression kind follows the documented rule (mutable/extern/valueless/transitive)", 60, r15b),
+        Rule("R15.d", "finish_body: no normal return bypasses the constness test of a global's body (must-pass-through on MIR)", 1, r15d),
         Rule("R15.c", "classifier and evaluator agree: Const integer-capable kinds have value-producing const_data arms", 8, r15c),
     ]
